@@ -2,8 +2,10 @@
 //! /repo's working tree and prints canonical transcripts.
 //!
 //! usage: specs-harness world <histories-file>      (one history per line, integers)
+//!        specs-harness dispatch <graphs-file>     (property C11, see dispatch.rs)
 //! output: one line per history, the outputs of the ops separated by " | ".
 mod comps;
+mod dispatch;
 mod world_exec;
 
 use std::io::{BufRead, Write};
@@ -27,6 +29,7 @@ fn main() {
             .collect();
         let tr = match args[1].as_str() {
             "world" => world_exec::run_history(&ints),
+            "dispatch" => dispatch::run_history(&ints),
             d => panic!("unknown domain {}", d),
         };
         let parts: Vec<String> = tr
